@@ -456,6 +456,11 @@ func (e *Eng) verifyFunc(fc *FuncContract, refute bool, unrollK int) (res *FuncR
 		dynBase = a0.Name
 	}
 	tr.entry = State{Reach: tTrue, Mem: m0, Alloc: a0, Locks: vc.Fresh("L0", SMem), Ghost: vc.Fresh("G0", SMem)}
+	if fc.NoLocks {
+		// entered with no mutex held at all (callers are obliged to show it)
+		o, j := Sym("o!q", SInt), Sym("j!q", SInt)
+		vc.Assume(Forall([]*Term{o, j}, Eq(Select(Select(tr.entry.Locks, o), j), Int(0)), Select(Select(tr.entry.Locks, o), j)))
+	}
 	for _, p := range fn.Params {
 		tr.params = append(tr.params, tr.freshVal("p_"+p.Name(), p.Type(), a0))
 	}
